@@ -317,6 +317,13 @@ PLANS["C09"] = dict(
 
 def _c09_fixed():
     out = []
+    # invalid messages, then one timeout, then valid solicitations: served as promptly as after any single timeout
+    for mode in ("adv", "mon"):
+        for k in (1, 5, 20, 300):
+            steps = [{"op": "adv", "to": 5000}] + [{"op": "rs", "src": "fe80::bad", "hl": 1 + i % 250} for i in range(k)] + \
+                    [{"op": "timeout"}, {"op": "rs", "src": "fe80::a1"}, {"op": "adv", "to": 5400}, {"op": "timeout"}, {"op": "timeout"}, {"op": "rs", "src": "fe80::a1"},
+                     {"op": "adv", "to": 9000}]
+            out.append({"cfg": dict(DEF["cfg"], mode=mode), "steps": steps, "src": "invalid-then-timeout-%d" % k})
     for k in range(1, 13):
         steps = [{"op": "adv", "to": 5000}] + [{"op": "rs", "src": "fe80::bad", "hl": (k * 37 + i) % 255} for i in range(k)]
         steps += [{"op": "rs", "src": "fe80::a1"}, {"op": "adv", "to": 12000}, {"op": "snap"}]
@@ -429,6 +436,18 @@ def _c10_fixed():
     out.append({"cfg": dict(DEF["cfg"]), "src": "redial-loop",
                 "steps": [{"op": "adv", "to": 5000}, {"op": "failw", "dst": "allnodes", "class": "sys"}, {"op": "link"}, {"op": "adv", "to": 9000},
                           {"op": "failw", "dst": "allnodes", "class": ""}, {"op": "adv", "to": 14000}, {"op": "rs", "src": "fe80::a1"}, {"op": "adv", "to": 16000}]})
+    # a link event that arrives while the initial RA of a re-established session is still being written
+    for cfgv in (DEF["cfg"], dict(DEF["cfg"], mode="mon")):
+        out.append({"cfg": dict(cfgv), "src": "link-during-initial-ra",
+                    "steps": [{"op": "adv", "to": 5000}, {"op": "hold", "key": "w|allnodes"}, {"op": "link"}, {"op": "link"}, {"op": "adv", "to": 5200},
+                              {"op": "release", "key": "w|allnodes"}, {"op": "adv", "to": 9000}, {"op": "rs", "src": "fe80::a1"}, {"op": "adv", "to": 12000}]})
+    # invalid messages first, then one timeout, then a valid solicitation: the back-off after the timeout is that of ONE timeout
+    for mode in ("adv", "mon"):
+        for k in (1, 5, 20, 300):
+            steps = [{"op": "adv", "to": 5000}] + [{"op": "rs", "src": "fe80::bad", "hl": 1 + i % 250} for i in range(k)] + \
+                    [{"op": "timeout"}, {"op": "rs", "src": "fe80::a1"}, {"op": "adv", "to": 5400}, {"op": "timeout"}, {"op": "timeout"}, {"op": "rs", "src": "fe80::a1"},
+                     {"op": "adv", "to": 9000}]
+            out.append({"cfg": dict(DEF["cfg"], mode=mode), "steps": steps, "src": "invalid-then-timeout-%d" % k})
     # timeouts interleaved with INVALID messages: those neither consume nor refill the retry budget, nor restart the back-off
     for mode in ("adv", "mon"):
         for a in (1, 3, 4):
@@ -510,6 +529,32 @@ def fwd_read_failures():
     return out
 
 
+def unreachable_solicitors():
+    """A solicited unicast RA fails because its destination is unreachable, close to a multicast RA: whatever the error
+    handling does, it does not add a multicast RA inside the 3 s spacing."""
+    out = []
+    for cfgv in (DEF["cfg"], FAST["cfg"]):
+        for at in (3100, 4000, 5900, 6200):
+            steps = [{"op": "adv", "to": at}, {"op": "failw", "dst": "2001:db8::a2", "class": "unreach"}, {"op": "rs", "src": "unspec"},
+                     {"op": "rs", "src": "2001:db8::a2"}, {"op": "adv", "to": at + 1000}, {"op": "failw", "dst": "2001:db8::a2", "class": ""},
+                     {"op": "rs", "src": "unspec"}, {"op": "adv", "to": at + 9000}]
+            out.append({"cfg": dict(cfgv), "steps": steps, "src": "unreachable-solicitor"})
+    return out
+
+
+def _c08_watch_end():
+    """The link-state watcher ends (its subscription channel is closed) at or just before the stop request, as it does when
+    the whole server shuts down: still a clean stop with its final RA, not a link change."""
+    out = []
+    for cfgv in (DEF["cfg"], FAST["cfg"], SRV["cfg"]):
+        for term in (True, False):
+            for gap in (0, 1, 100):
+                steps = [{"op": "adv", "to": 5000}, {"op": "wclose", "nowait": gap == 0}] + ([{"op": "adv", "to": 5000 + gap}] if gap else []) + \
+                        [{"op": "cancel", "term": term}, {"op": "adv", "to": 8000}]
+                out.append({"cfg": dict(cfgv), "steps": steps, "src": "watcher-ends-at-stop"})
+    return out
+
+
 def _c08_fixed():
     """Transmit latency on the final RA itself (and on a transmission in flight at the stop): the write is held open
     across 0.5 .. 30 s of virtual time; Run may only return after it, and nothing may follow it."""
@@ -527,11 +572,11 @@ def _c08_fixed():
     return out
 
 
-PLANS["C08"]["fixed"] = _c08_fixed()
+PLANS["C08"]["fixed"] = _c08_fixed() + _c08_watch_end()
 PLANS["C10"]["fixed"] = _c10_fixed()
 PLANS["C10"]["ifis"] = ("vf0", "vf1")
 PLANS["C07"]["fixed"] = concurrent_write_failures() + solicitation_floods()
-PLANS["C06"]["fixed"] = solicitation_floods()
+PLANS["C06"]["fixed"] = solicitation_floods() + unreachable_solicitors()
 
 
 L0 = {"cfg": {"min": 200000, "max": 600000, "life": 0}}
